@@ -5,9 +5,11 @@ import lexstreams as LS
 
 VOCAB = ["SELECT", "a", "(b,c)", "1", ",", "[x]", "From"]
 OPS = ["go:0", "go:1", "gn:1", "get", "pop", "mv:1", "close", "fin", "s:SELECT,a", "sm:SELECT,a", "sm:@NAME", "m:SELECT,a", "m:a", "mk:@PARENTHESIS", "ss:COMMA", "sms:COMMA", "ss:From", "sms:From", "sms:FROM", "sms:a", "sms:A", "s1:FROM",
-       "sm1:SELECT", "s2:SELECT,A", "sm2:A,FROM", "s3:SELECT,A,FROM", "sm3:SELECT,A,FROM", "set:a,1", "setu:FROM,SELECT", "smsetu:A,SELECT", "src", "psrc", "gkid", "pkid", "gkadv", "split:COMMA"]
+       "sm1:SELECT", "s2:SELECT,A", "sm2:A,FROM", "s3:SELECT,A,FROM", "sm3:SELECT,A,FROM", "set:a,1", "setu:FROM,SELECT", "smsetu:A,SELECT", "src", "psrc", "gkid", "pkid", "gkadv", "split:COMMA",
+       # a string pattern that spells the rendered text of a bracket token ("[x]" renders as "(x)"): brackets match by mark only (TokenScanner.search docstring)
+       "s:(x)", "sm:(x)", "sm:(X)", "m:(x)"]
 PEEK = ("go", "gn", "get", "close", "fin", "s", "mk", "ss", "s1", "s2", "s3", "set", "setu", "src", "gkid", "gkadv")
-MOVE_N = {"sms:From": 1, "sms:FROM": 1, "sms:a": 1, "sms:A": 1, "sm:SELECT,a": 2, "sm:@NAME": 1, "sms:COMMA": 1, "sm1:SELECT": 1, "sm2:A,FROM": 2, "sm3:SELECT,A,FROM": 3, "smsetu:A,SELECT": 1}
+MOVE_N = {"sms:From": 1, "sms:FROM": 1, "sms:a": 1, "sms:A": 1, "sm:SELECT,a": 2, "sm:@NAME": 1, "sms:COMMA": 1, "sm1:SELECT": 1, "sm2:A,FROM": 2, "sm3:SELECT,A,FROM": 3, "smsetu:A,SELECT": 1, "sm:(x)": 1, "sm:(X)": 1}
 
 
 def oracle(ntoks, ops, answer, toks=None):
@@ -36,6 +38,8 @@ def oracle(ntoks, ops, answer, toks=None):
             want = pos < len(toks) and toks[pos] == arg
             if (r == "T") != want:
                 fails.append(("probe-answer", "%s at %d of %r answered %s" % (op, pos, toks, r)))
+        if op in ("s:(x)", "sm:(x)", "sm:(X)", "m:(x)") and r == "T":
+            fails.append(("bracket-matched-by-source", "%s answered T: a bracket token must not match a string pattern" % op))
         if name == "close" and ((r == "-") != (pos >= ntoks)):
             fails.append(("close", "close() at %d of %d answered %s" % (pos, ntoks, r)))
         if name == "fin" and ((r == "T") != (pos >= ntoks)):
